@@ -279,6 +279,42 @@ class RngProxy(object):
         self.log.append(('choice', seq if self.copy_pop == 'ref' else (tuple(seq) if self.copy_pop else n), i))
         return seq[i]
 
+    def choices(self, population, weights=None, *, cum_weights=None, k=1):
+        """a direct categorical draw is a first-class event: the monitors read the law off the log entry"""
+        pop = list(population)
+        n = len(pop)
+        if cum_weights is not None:
+            if weights is not None:
+                raise TypeError('Cannot specify both weights and cumulative weights')
+            cw = list(cum_weights)
+            w = [cw[0]] + [cw[j] - cw[j - 1] for j in range(1, len(cw))] if cw else []
+        elif weights is None:
+            w = [1.0] * n
+        else:
+            w = [float(x) for x in weights]
+        if len(w) != n:
+            raise ValueError('The number of weights does not match the population')
+        if n == 0:
+            raise IndexError('Cannot choose from an empty population')
+        total = math.fsum(w)
+        if not total > 0:
+            raise ValueError('Total of weights must be greater than zero')
+        probs = tuple(x / total for x in w)
+        res = []
+        for _ in range(k):
+            self._tick()
+            idx = [j for j in range(n) if probs[j] > 0]
+            if self.driver is None:
+                i = self._r.choices(range(n), weights=w)[0]
+            elif len(idx) == 1:
+                i = idx[0]
+            else:
+                c = self.driver.decide('choices', [probs[j] for j in idx], {'n': n, 'logpos': len(self.log)})
+                i = idx[c]
+            self.log.append(('choices', tuple(pop) if self.copy_pop else n, probs, i))
+            res.append(pop[i])
+        return res
+
     def sample(self, population, k):
         pop = list(population)
         if self.driver is None:
